@@ -20,11 +20,11 @@ def adopt(wt, pid, name, needs):
         os.makedirs(os.path.join(scratch, "_mutation"), exist_ok=True)
         shutil.copy(os.path.join(src, "demo.py"), os.path.join(scratch, "_mutation", "demo.py"))
         open(os.path.join(scratch, "_mutation", "patch.diff"), "wb").write(patch)
-        d0, o0 = sh(f"{PY} _mutation/demo.py", cwd=scratch, timeout=600)
+        d0, o0 = sh(f"PYTHONPATH={scratch} {PY} _mutation/demo.py", cwd=scratch, timeout=600)
         a, ao = sh("git apply _mutation/patch.diff", cwd=scratch)
         assert a == 0, "patch does not apply: " + ao
         t, to = sh(f"{PY} -m pytest -q -p no:cacheprovider", cwd=scratch, timeout=900)
-        d1, o1 = sh(f"{PY} _mutation/demo.py", cwd=scratch, timeout=600)
+        d1, o1 = sh(f"PYTHONPATH={scratch} {PY} _mutation/demo.py", cwd=scratch, timeout=600)
     finally:
         sh(f"git -C {REPO} worktree remove --force {scratch}")
     tail = to.strip().splitlines()[-1] if to.strip() else ""
